@@ -1,5 +1,6 @@
-"""PROTOTYPE: one real CLI process with monitors installed: python -m vf.cli_boot <trace.json> <monitors-json> <target> -- argv..."""
-import json, sys, os
+"""One real CLI process with monitors installed: python -m vf.cli_boot <trace.json> <monitors-json> <target> -- argv...
+The interpreter-level parameters (PYTHONHASHSEED, switch interval, environment) are real; the trace is written even when the run raises."""
+import json, sys, os, traceback
 from pathlib import Path
 
 def main():
@@ -7,15 +8,20 @@ def main():
     argv = sys.argv[sys.argv.index("--") + 1:]
     from vf import monitors as M
     tr = M.Trace()
-    rc = None
+    rc = None; exc = None
     sys.argv = ["codemodder"] + argv
-    with M.Monitors(json.loads(mon_json), tr, Path(target)):
-        from codemodder.codemodder import main as cm_main
-        try:
-            cm_main()
-        except SystemExit as e:
-            rc = e.code
-    json.dump({"rc": rc, "events": tr.events, "counters": tr.counters}, open(trace_path, "w"))
+    try:
+        with M.Monitors(json.loads(mon_json), tr, Path(target)):
+            from codemodder.codemodder import main as cm_main
+            try:
+                cm_main()
+            except SystemExit as e:
+                rc = e.code
+            except BaseException as e:
+                exc = type(e).__name__ + ": " + str(e)[:300]; rc = 1
+                traceback.print_exc()
+    finally:
+        json.dump({"rc": rc, "exc": exc, "events": tr.events, "counters": tr.counters}, open(trace_path, "w"))
     sys.exit(rc)
 
 if __name__ == "__main__":
